@@ -380,6 +380,33 @@ static void bk_case(vf::Draw& d, vf::Case& c)
     VF_CHECK(info3 == info1, "unused_triangle_read", "status changes when the unused triangle is overwritten");
     if (info3 == Spectra::CompInfo::Successful)
         VF_CHECK(vf::bits_equal(x1, x3), "unused_triangle_read", "solution changes when the unused triangle is overwritten");
+    // history: one object first factorizes and solves ANOTHER system (other size, other triangle, other shift), as the shift-solve wrappers do
+    // on every set_shift(); nothing of it may survive into the factorization of the target
+    if (d.flag("reuse_after_other_system"))
+    {
+        typedef typename Types<S>::MatC MatC;
+        const Index m = (Index) d.range("other_n", 1, n + 3);
+        MatC Bm(m, m);
+        for (Index j = 0; j < m; j++)
+            for (Index i = 0; i < m; i++)
+                Bm(i, j) = (i == j) ? S(Real(2 + ((i * 3) % 5))) : S(Real((ld) (((i + j) * 7 + 1) % 5 - 2) / 4));
+        std::unique_ptr<Spectra::BKLDLT<S>> sp(new Spectra::BKLDLT<S>());
+        sp->compute(Bm, other, Real(0.25));
+        if (sp->info() == Spectra::CompInfo::Successful)
+        {
+            Vec ones = Vec::Ones(m);
+            Vec y = sp->solve(ones);
+            (void) y;
+        }
+        factorize<S>(sp, A, form, uplo_first, false, shift, false);
+        VF_CHECK(sp->info() == info1, "reuse_changes_status", "status " << (int) sp->info() << " after the object factorized another " << m << "x" << m << " system first, " << (int) info1 << " on a fresh object");
+        if (info1 == Spectra::CompInfo::Successful)
+        {
+            Vec xr = sp->solve(bs);
+            VF_CHECK(vf::bits_equal(x1, xr), "reuse_changes_solution", "solution differs from a fresh object's after the object factorized another " << m << "x" << m << " system first (max diff " << vf::num(vf::maxabs(vf::widen(x1) - vf::widen(xr))) << ")");
+        }
+        c.cls("object_reused_after_other_system");
+    }
 }
 
 // DenseSymShiftSolve (real scalars): set_shift throws invalid_argument exactly when BKLDLT reports non-success; perform_op == solve
